@@ -53,6 +53,16 @@ fn run2<S: Fixed + PartialOrd<D>, D: Fixed>(op: &str, a: &[&str]) -> String wher
     }
 }
 
+// ---- the infallible conversions (exist only for admissible pairs)
+fn run_from<S: Fixed, D: Fixed + From<S>>(a: &[&str]) -> String where S::Bits: Prim, D::Bits: Prim {
+    let x = S::from_bits(<S::Bits as Prim>::parse(arg(a, 0)));
+    fx::<D>(D::from(x))
+}
+fn run_lossy<S: Fixed, D: Fixed + substrate_fixed::traits::LossyFrom<S>>(a: &[&str]) -> String where S::Bits: Prim, D::Bits: Prim {
+    let x = S::from_bits(<S::Bits as Prim>::parse(arg(a, 0)));
+    fx::<D>(D::lossy_from(x))
+}
+
 // ---- fixed <-> primitive integer
 macro_rules! int_ops {
     ($F:ty, $I:ty, $op:expr, $a:expr) => {{
@@ -177,6 +187,10 @@ fn hook(op: &str, s: bool, n: u32, a: &[&str]) -> String {
 fn main() {
     serve(|op, s, n, f, a| {
         if op.starts_with("h_") { hook(op, s, n, a) }
+        else if op == "cvt_from" || op == "cvt_lossy" {
+            let s2 = arg(a, 1) == "1"; let n2 = arg_u32(a, 2); let f2 = arg_u32(a, 3);
+            if op == "cvt_from" { sfx_dispatch_from!(s, n, f, s2, n2, f2, run_from(a)) } else { sfx_dispatch_lossy!(s, n, f, s2, n2, f2, run_lossy(a)) }
+        }
         else if op.starts_with("cv_") || op.starts_with("cmp_") {
             let s2 = arg(a, 1) == "1"; let n2 = arg_u32(a, 2); let f2 = arg_u32(a, 3);
             sfx_dispatch_pair!(s, n, f, s2, n2, f2, run2(op, a))
